@@ -168,6 +168,9 @@ DEFAULTED = {
     "array_default": ("m: int, d: int", "Array(Number(), default=[d], maxItems=2)", []),
     "anyof_default": ("m: int, d: int", "AnyOf(Integer(minimum=m), Null(), default=None)", []),
     "class_default": ("m: int, d: int", 'Object.inline("Inner", properties={"x": Property(Number(minimum=m), required=True)}, default={"x": d})', ["d >= m"]),
+    "class_default_empty": ("m: int, d: int", 'Object.inline("Inner", properties={"x": Property(Number(minimum=m))}, default={})', []),
+    "falsy_defaults": ("m: int, d: int", '(Integer(maximum=m, default=0), String(default=""), Array(Integer(), default=[]), Boolean(default=False), Null(default=None), Number(default=0), Element(default=0), AnyOf(Integer(), String(), default=""))[d % 8]', ["m >= 0"]),
+    "parsed_falsy_defaults": ("m: int, d: int", 'parse_s(({"type": "object", "title": "Inner", "default": {}}, {"type": "array", "default": []}, {"type": ["integer", "string"], "default": 0}, {"anyOf": [{"type": "boolean"}, {"type": "null"}], "default": False})[d % 4])', []),
 }
 
 
